@@ -666,6 +666,19 @@ struct Run<'a> {
     n_token_spans: usize,
     n_other_spans: usize,
     alt_counter: usize,
+    acc_tokens: usize,
+    acc_spans: usize,
+    acc_report: usize,
+}
+
+/// keep shards small in bytes as well as in cases (coqc's cost is proportional to the text)
+fn push_capped(sink: &mut Sink, acc: &mut usize, g: String, desc: serde_json::Value, nontrivial: bool, kf: Option<&str>, tags: &[&str]) {
+    if *acc + g.len() > 300_000 {
+        sink.flush();
+        *acc = 0;
+    }
+    *acc += g.len();
+    sink.push(g, desc, nontrivial, kf, tags);
 }
 
 const KF_EOI: &str = "eoi:range-start-not-collapsed";
@@ -822,7 +835,7 @@ impl<'a> Run<'a> {
         let tag_cls = format!("class:{}", info.class);
         let tag_pl = format!("placement:{}", p.desc["placement"].as_str().unwrap_or("?"));
         let tag_f = format!("fault:{}", fault.label);
-        self.report.push(g, d, multi && (span.start_line > 1 || span.start_col != span.range.start || !p.calls.is_empty()), kf,
+        push_capped(self.report, &mut self.acc_report, g, d, multi && (span.start_line > 1 || span.start_col != span.range.start || !p.calls.is_empty()), kf,
             &[&tag_cls, &tag_pl, &tag_f, if exact { "display:exact" } else { "display:head-only" }]);
     }
 
@@ -1009,7 +1022,7 @@ impl<'a> Run<'a> {
                 }
                 let g = format!("{{| sc_src := {}; sc_spans_lit := {} |}}", hexlit(src.as_bytes()), spans);
                 let multi = src.contains('\n') && !src.is_ascii();
-                self.tokens.push(g, json!({"label": label, "source": src, "tokens": toks.len()}), multi && toks.len() >= 3, None,
+                push_capped(self.tokens, &mut self.acc_tokens, g, json!({"label": label, "source": src, "tokens": toks.len()}), multi && toks.len() >= 3, None,
                     &[if src.is_ascii() { "ascii" } else { "non-ascii" }, if src.contains('\n') { "multi-line" } else { "one-line" }]);
             }
             Err(e) => {
@@ -1021,7 +1034,7 @@ impl<'a> Run<'a> {
                         self.meta.oracle_fail(&format!("lexer error span: {why}"), None, json!({"source": src, "label": label, "span": json_span(sp), "message": info.message}));
                     }
                     let g = format!("{{| sc_src := {}; sc_spans_lit := {} |}}", hexlit(src.as_bytes()), spans_lit(std::slice::from_ref(sp)).unwrap_or_else(|| "(B 0 0)".into()));
-                    self.spans.push(g, json!({"label": label, "source": src, "what": "lexer-error", "message": info.message}), !src.is_ascii(), None, &["lexer-error"]);
+                    push_capped(self.spans, &mut self.acc_spans, g, json!({"label": label, "source": src, "what": "lexer-error", "message": info.message}), !src.is_ascii(), None, &["lexer-error"]);
                 }
             }
         }
@@ -1095,7 +1108,7 @@ impl<'a> Run<'a> {
         let Some(lit) = spans_lit(&all) else { return };
         let g = format!("{{| sc_src := {}; sc_spans_lit := {} |}}", hexlit(src.as_bytes()), lit);
         let multi = src.contains('\n') && !src.is_ascii();
-        self.spans.push(g, json!({"label": label, "source": src, "what": what, "spans": all.len()}), multi && all.len() >= 3, None, &[what]);
+        push_capped(self.spans, &mut self.acc_spans, g, json!({"label": label, "source": src, "what": what, "spans": all.len()}), multi && all.len() >= 3, None, &[what]);
     }
 
     /// raw tokens under a second delimiter set (same bookkeeping, other markers)
@@ -1120,7 +1133,7 @@ impl<'a> Run<'a> {
         let Some(spans) = spans_lit(&toks.iter().map(|(_, sp)| sp.clone()).collect::<Vec<_>>()) else { return };
         let g = format!("{{| sc_src := {}; sc_spans_lit := {} |}}", hexlit(alt.as_bytes()), spans);
         let multi = alt.contains('\n') && !alt.is_ascii();
-        self.tokens.push(g, json!({"label": label, "source": alt, "tokens": toks.len(), "delimiters": "<% %> << >> <# #>"}), multi && toks.len() >= 3, None, &["custom-delimiters"]);
+        push_capped(self.tokens, &mut self.acc_tokens, g, json!({"label": label, "source": alt, "tokens": toks.len(), "delimiters": "<% %> << >> <# #>"}), multi && toks.len() >= 3, None, &["custom-delimiters"]);
     }
 
     /// a multi-template set of the snapshot corpus: whatever error registration or any render
@@ -1446,7 +1459,7 @@ fn main() {
     }
 
     let mut run = Run { tokens: &mut tokens, spans: &mut spans, report: &mut report, eoi: &mut eoi, meta: &mut meta,
-        seen: Default::default(), oracle_nontrivial: 0, to_coq: true, n_token_spans: 0, n_other_spans: 0, alt_counter: 0 };
+        seen: Default::default(), oracle_nontrivial: 0, to_coq: true, n_token_spans: 0, n_other_spans: 0, alt_counter: 0, acc_tokens: 0, acc_spans: 0, acc_report: 0 };
 
     // ---- A. planted faults
     let rf = render_faults();
